@@ -9,6 +9,9 @@ Two sources of objects (histories themselves: harness/histlib.py):
                or two ways (label lists in both default formats, renderings with variable names, a first transformation,
                a shuffle, …), grows (clauses with fresh indices, clauses written with the variables its own groups hand
                out, raised counts, batches, sometimes a new variable / group), and is transformed;
+  hist_labels: hand-made histories of the manager steps (clauses, raised counts, groups of every kind, clauses written with
+               group variables) with observations interleaved: after every step the declared count, at the end the list
+               of names in BOTH default formats — request `vg_hist` (the manager model of C10 / C11);
   hist_trans : hand-made histories of every growth step (groups of every kind included) with observations interleaved,
                then a transformation — sizes up to the neighbourhood of the source's integer constants.
 
@@ -229,7 +232,107 @@ def build_hist(info):
                 cls=tr["t"] + ":after:" + histlib.describe(steps[-1:]), nontrivial=len(clauses) > 0, info=info)
 
 
+# ------------------------------------------------------------------ counts and names after a history with observations
+def group_size(spec):
+    """the number of variables a group of this specification has, from the documentation of its kind"""
+    from math import comb, perm
+    k = spec["kind"]
+    if k == "variable":
+        return 1
+    if k == "block":
+        size = 1
+        for r in spec["ranges"]:
+            size *= r
+        return size
+    if k == "combinations":
+        return comb(spec["n"], spec["k"])
+    if k == "combinations_with_replacement":
+        return comb(spec["n"] + spec["k"] - 1, spec["k"]) if spec["n"] + spec["k"] > 0 else 1
+    if k == "permutations":
+        return perm(spec["n"], spec["n"] if spec.get("k") is None else spec["k"])
+    if k == "words":
+        return spec["n"] ** spec["k"]
+    if k in ("bipartite", "sparse_mapping", "digraph"):
+        return len(set(tuple(e) for e in spec["G"]["edges"]))
+    if k == "graph":
+        return len(set(tuple(sorted(e)) for e in spec["G"]["edges"]))
+    if k == "mapping":
+        return spec["n"] * spec["m"]
+    if k == "binary_mapping":
+        return spec["n"] * max(spec["m"] - 1, 0).bit_length()
+    raise ValueError(k)
+
+
+LABEL_KINDS = ["clause_fresh", "clause_fresh", "clause_old", "clause_empty", "update", "update", "var", "var_anon", "group", "group", "use"]
+
+
+def promised_count(n, op):
+    """the number of variables after one growth step, from the documentation of the step"""
+    if op["op"] == "clause":
+        return max([n] + [abs(l) for l in op["lits"]]) if op["check"] else n
+    if op["op"] == "update":
+        return max(n, op["n"])
+    if op["op"] == "group":
+        return n + group_size(op["spec"])
+    return n        # use (variables handed out by existing groups), header
+
+
+def build_labels(info):
+    """the manager history request of C11 / C10 (`vg_hist`: count, largest mentioned variable, outcome after every growth
+    step, then the list of names) on an object that is also LOOKED AT between the steps"""
+    steps, dfmt = info["steps"], info["dfmt"]
+    ops = histlib.model_ops(steps)
+    enc = []
+    for op in ops:
+        enc += C11.enc_op(op)
+    state = {}
+
+    def impl():
+        state.clear()
+        F, created = CNF(), C11.Created()
+        parts, n, trace = [], 0, []
+        for st in steps:
+            if histlib.is_obs(st):
+                try:
+                    histlib.observe(F, st)
+                except Exception:
+                    pass
+                continue
+            out = histlib.apply_grow(F, st, created)
+            if st["op"] == "header":
+                continue
+            n = promised_count(n, st)
+            trace.append((st, n, F.number_of_variables()))
+            parts.append("{}:{}:{}".format(F.number_of_variables(), C11.max_mentioned(F), out))
+        names = {d: list(F.all_variable_labels(d)) for d in histlib.DFMTS}
+        state.update(trace=trace, names=names, n=n, F=F)
+        parts.append(C11.fmt_list(C11.fmt_label(x) for x in names[dfmt]))
+        return ok(" ; ".join(parts))
+
+    def oracle():
+        if "trace" not in state:
+            return {"history_raised": True, "history": steps}
+        for st, want, got in state["trace"]:
+            if want != got:
+                return {"history": steps, "after": st, "declared": got, "promised": want}
+        F, n = state["F"], state["n"]
+        owned = set()
+        for g in F._groups:
+            owned.update(g.ids)
+        for d, names in state["names"].items():
+            if len(names) != n:
+                return {"history": steps, "default_format": d, "names_listed": len(names), "declared": n}
+            for v in range(1, n + 1):
+                if v not in owned and names[v - 1] != d.format(v):
+                    return {"history": steps, "default_format": d, "variable": v, "reported_name": names[v - 1]}
+        return None
+    return Case("hist_labels", common.req("vg_hist", common.enc_str(dfmt), len(ops), enc), impl, oracle,
+                cls=dfmt + ":after:" + histlib.describe(steps[-1:]), nontrivial=len(ops) > 1, info=info)
+
+
 def build(suite, info):
+    if suite == "hist_labels":
+        return build_labels(info)
     if suite == "fam_grown":
         return build_fam(info)
     if suite == "hist_trans":
@@ -257,6 +360,15 @@ def infos(ctx):
             n, clauses = R.number_of_variables(), [list(c) for c in R.clauses()]
             cands = [t for t in histlib.all_trans(rng) if affordable(t, n, clauses)] or [{"t": "flip"}]
             out.append(("hist_trans", dict(steps=steps[:cut], tr=rng.choice(cands))))
+    # ---- counts and names (both default formats) after histories with observations: minimal shapes, then random ones
+    looks2 = [{"obs": "labels", "dfmt": d} for d in histlib.DFMTS + [None]] + [{"obs": "nvars"}, {"obs": "to_latex"}, {"obs": "to_file", "fmt": "dimacs", "header": True, "names": True}]
+    for d in histlib.DFMTS:
+        for h in histlib.minimal_histories(looks2 if not quick else [{"obs": "labels", "dfmt": d}, {"obs": "labels", "dfmt": None}]):
+            if all(histlib.is_obs(s) or s["op"] in ("clause", "update", "group", "use", "header") for s in h):
+                out.append(("hist_labels", dict(steps=h + [{"obs": "labels", "dfmt": d}, {"op": "clause", "lits": [-1, 9], "check": True}], dfmt=d)))
+    for _ in range(60 if quick else 2000):
+        steps, cuts = histlib.gen_history(rng, rng.randint(2, 8), rng.choice(sizes), favourite=rng.choice(looks2), become=0, init=0, kinds=LABEL_KINDS)
+        out.append(("hist_labels", dict(steps=steps, dfmt=rng.choice(histlib.DFMTS))))
     # ---- family objects
     per_suite = 2 if quick else 12
     for m in CF.SOURCES:
